@@ -325,8 +325,66 @@ def more_python_lints(repo, rep):
                         rep.fail("R-C20-18", fi2.file, sub.lineno, fi2.qualname, unparse(sub),
                                  f"'{nm}' holds the differences of an axis: for a spectrum with a single bin on that axis it is empty and this subscript raises "
                                  "IndexError (valid one-direction / one-frequency spectra crash)", anchor=f"diff-subscript:{fi2.short}:{nm}")
+    n18 += diff_reductions(repo, rep, "R-C20-18")
     if not n18:
         rep.ok("R-C20-18", "wavespectra (statistics, utils, partition)", "no subscripted difference vector", "nothing to guard")
+
+
+def diff_reductions(repo, rep, rule, modules=("wavespectra.core.utils", "wavespectra.specarray", "wavespectra.core.npstats", "wavespectra.core.xrstats",
+                                              "wavespectra.partition.partition", "wavespectra.partition.tracking")):
+    """np.diff(X)[k] / np.diff(X)....mean() / .min() / .max() written in one expression: X has at least two elements on every path that gets there
+    (a literal two-element selection, or a dominating test of X's size / length) - otherwise the difference is empty: IndexError, or a NaN / NaT
+    that turns the statistic into NaN for a valid one-record input."""
+    from ..astutil import known_facts
+    n_ = 0
+    for q in modules:
+        for fi in repo.module(q).all_funcs():
+            for c in ast.walk(fi.node):
+                if not (isinstance(c, ast.Call) and call_name(c).split(".")[-1] == "diff" and call_name(c).split(".")[0] in ("np", "numpy") and c.args):
+                    continue
+                # how is the difference consumed?
+                p, cur, consumed = getattr(c, "_parent", None), c, None
+                for _ in range(6):
+                    if isinstance(p, ast.Subscript) and p.value is cur and isinstance(p.slice, ast.Constant):
+                        consumed = "subscript"
+                        break
+                    if isinstance(p, ast.Attribute) and p.value is cur and p.attr in ("mean", "min", "max", "median", "item"):
+                        consumed = p.attr
+                        break
+                    if isinstance(p, ast.Attribute) and p.value is cur or isinstance(p, ast.Call) and p.func is cur:
+                        cur, p = p, getattr(p, "_parent", None)
+                        continue
+                    break
+                if consumed is None:
+                    continue
+                n_ += 1
+                x = c.args[0]
+                two = False
+                base = x
+                while True:
+                    if isinstance(base, ast.Attribute) and base.attr in ("values", "data"):
+                        base = base.value
+                    elif isinstance(base, ast.Subscript) and isinstance(base.slice, ast.Slice):
+                        base = base.value
+                    elif isinstance(base, ast.Call) and isinstance(base.func, ast.Attribute) and base.func.attr in ("astype", "to_numpy"):
+                        base = base.func.value
+                    else:
+                        break
+                if isinstance(base, ast.Call) and isinstance(base.func, ast.Attribute) and base.func.attr in ("isel", "sel"):
+                    for k in base.keywords:
+                        if isinstance(k.value, (ast.List, ast.Tuple)) and len(k.value.elts) >= 2:
+                            two = True
+                bt = unparse(base).replace(" ", "")
+                facts = known_facts(fi.node, c)
+                sized = any(g in (f"1<{bt}.size", f"2<={bt}.size", f"1<len({bt})", f"2<=len({bt})", f"1<{bt}.shape[0]", f"2<={bt}.shape[0]") for g in facts)
+                where = f"{fi.file}:{c.lineno} {fi.short}"
+                if two or sized:
+                    rep.ok(rule, where, unparse(getattr(cur, "_parent", cur))[:80], "at least two elements: " + ("two-element selection" if two else "dominating size test"))
+                else:
+                    rep.fail(rule, fi.file, c.lineno, fi.qualname, unparse(p if p is not None else c)[:100],
+                             f"the differences of '{unparse(base)[:40]}' are consumed ({consumed}) without a dominating test that it has at least two elements: for a "
+                             "one-record / one-bin input the difference is empty and the result is IndexError or NaN", anchor=f"diff-of-short-axis:{fi.short}:{bt[:30]}")
+    return n_
 
 
 def python_lints(repo, rep):
